@@ -2,14 +2,21 @@
 
 package gobinlog
 
+import (
+	"strings"
+
+	"github.com/Breeze0806/gobinlog/internal/vspec"
+)
+
 // Contract for statement classification (property C02: "boundary statements are recognised whatever their letter
 // case"). The classifier takes the first word of the statement (up to the first space), lower-cases it and looks it
 // up in a table of twelve keywords.
 //
 // Decided, one unit per keyword (case functions; the case is the assumption "the first word is this keyword in some
-// mixture of ASCII upper and lower case"): the result is that keyword's statement type. Not decided: that a first
-// word which is none of the keywords is classified unknown (needs reasoning about all lengths and about
-// strings.ToLower on non-ASCII input, whose result may be an ASCII keyword: U+212A KELVIN SIGN lower-cases to k).
+// mixture of ASCII upper and lower case"): the result is that keyword's statement type. The other direction (a first
+// word of ASCII bytes that is none of the keywords is classified unknown) is decided by the ten further cases at
+// the end of this file; first words with a non-ASCII byte are outside both (strings.ToLower may map them onto an
+// ASCII keyword: U+212A KELVIN SIGN lower-cases to k).
 
 func specLowerASCII(b byte) byte {
 	if b >= 'A' && b <= 'Z' {
@@ -60,3 +67,94 @@ func vc_case_Stmt_drop(sql string) bool     { return specFirstWordIs(sql, "drop"
 func vc_case_Stmt_truncate(sql string) bool { return specFirstWordIs(sql, "truncate") }
 func vc_case_Stmt_rename(sql string) bool   { return specFirstWordIs(sql, "rename") }
 func vc_case_Stmt_set(sql string) bool      { return specFirstWordIs(sql, "set") }
+
+// ---- the other direction: a first word that is no keyword is classified unknown ----
+//
+// Decided for every statement whose first word (the bytes before the first space) consists of ASCII bytes only and
+// is none of the twelve keywords in any mixture of letter case: the result is StatementUnknown. One unit per word
+// length 0..8 (the word length is exact there, the rest of the statement arbitrary) and one for all longer words
+// (no keyword has more than eight letters; strings.ToLower keeps the length of an ASCII string). Not decided:
+// words with a non-ASCII byte (strings.ToLower can map them onto an ASCII keyword: "ROLLBACK" lower-cases to
+// "rollback", so such a statement IS classified as a rollback by the real code — outside this clause).
+
+// the first word of sql has exactly n bytes (n is a constant at every use)
+func specWordLenIs(sql string, n int) bool {
+	if len(sql) < n {
+		return false
+	}
+	for i := 0; i < n; i++ {
+		if sql[i] == ' ' {
+			return false
+		}
+	}
+	return len(sql) == n || sql[n] == ' '
+}
+
+// the first n bytes of sql are ASCII (n is a constant at every use)
+func specPrefixASCII(sql string, n int) bool {
+	if len(sql) < n {
+		return false
+	}
+	for i := 0; i < n; i++ {
+		if sql[i] >= 0x80 {
+			return false
+		}
+	}
+	return true
+}
+
+func specNoKeyword(sql string) bool {
+	return !specFirstWordIs(sql, "begin") && !specFirstWordIs(sql, "commit") && !specFirstWordIs(sql, "rollback") &&
+		!specFirstWordIs(sql, "insert") && !specFirstWordIs(sql, "update") && !specFirstWordIs(sql, "delete") &&
+		!specFirstWordIs(sql, "create") && !specFirstWordIs(sql, "alter") && !specFirstWordIs(sql, "drop") &&
+		!specFirstWordIs(sql, "truncate") && !specFirstWordIs(sql, "rename") && !specFirstWordIs(sql, "set")
+}
+
+// a short ASCII word of exactly n bytes that is no keyword
+func specOtherWord(sql string, n int) bool {
+	return specWordLenIs(sql, n) && specPrefixASCII(sql, n) && specNoKeyword(sql)
+}
+
+// the end of the first word: the index of the first space, or the length (strings.IndexByte by its library contract)
+func specWordEnd(sql string) int {
+	if i := strings.IndexByte(sql, ' '); i >= 0 {
+		return i
+	}
+	return len(sql)
+}
+
+// an ASCII word of more than eight bytes
+func specLongWord(sql string) bool {
+	return len(sql) >= 9 && specWordLenAtLeast9(sql) &&
+		vspec.Forall(0, specWordEnd(sql), func(k int) bool { return sql[k] < 0x80 })
+}
+
+func specWordLenAtLeast9(sql string) bool {
+	for i := 0; i < 9; i++ {
+		if sql[i] == ' ' {
+			return false
+		}
+	}
+	return true
+}
+
+func specOtherASCIIWord(sql string) bool {
+	return specOtherWord(sql, 0) || specOtherWord(sql, 1) || specOtherWord(sql, 2) || specOtherWord(sql, 3) ||
+		specOtherWord(sql, 4) || specOtherWord(sql, 5) || specOtherWord(sql, 6) || specOtherWord(sql, 7) ||
+		specOtherWord(sql, 8) || specLongWord(sql)
+}
+
+func vc_GetStatementCategory_ensures_unknown(sql string, res StatementType) bool {
+	return !specOtherASCIIWord(sql) || res == StatementUnknown
+}
+
+func vc_case_Stmt_other0(sql string) bool    { return specOtherWord(sql, 0) }
+func vc_case_Stmt_other1(sql string) bool    { return specOtherWord(sql, 1) }
+func vc_case_Stmt_other2(sql string) bool    { return specOtherWord(sql, 2) }
+func vc_case_Stmt_other3(sql string) bool    { return specOtherWord(sql, 3) }
+func vc_case_Stmt_other4(sql string) bool    { return specOtherWord(sql, 4) }
+func vc_case_Stmt_other5(sql string) bool    { return specOtherWord(sql, 5) }
+func vc_case_Stmt_other6(sql string) bool    { return specOtherWord(sql, 6) }
+func vc_case_Stmt_other7(sql string) bool    { return specOtherWord(sql, 7) }
+func vc_case_Stmt_other8(sql string) bool    { return specOtherWord(sql, 8) }
+func vc_case_Stmt_otherlong(sql string) bool { return specLongWord(sql) }
